@@ -1,9 +1,18 @@
 /-
-C14 — model of nipy/algorithms/clustering/utils.py (`_EStep`, `_MStep`, the
-`_kmeans` loop with its actual return logic, `voronoi`) and of
-nipy/algorithms/clustering/hierarchical_clustering.py (`_inertia`, the merge loop
-of `ward` on the auxiliary graph, a replay checker for any merge sequence — used
-for `ward_quick` and for tied costs —, `WeightedForest.partition` / `split`).
+C14 — model of nipy/algorithms/clustering/utils.py (`_EStep`, `_MStep`, the `_kmeans` loop with its
+actual return logic and restarts, the argument handling of `kmeans`, `voronoi`) and of
+nipy/algorithms/clustering/hierarchical_clustering.py:
+  * the combinatorial skeleton shared by `ward`, `ward_quick` and `average_link_graph` (live edges
+    between current roots, `_remap` / `fusion` renaming with removal of loops and double edges —
+    the model keeps one edge per unordered pair, the code may keep `(k,x)` and `(x,k)` with equal
+    weights —, merges, the `parents` array);
+  * Ward: `_inertia`, `_auxiliary_graph` + `_initial_inertia`, the merge loop of `ward` with the
+    stored height `max(cost, height[i], height[j])`, a replay checker for any merge sequence (used
+    for `ward_quick` and for tied costs);
+  * average link: `fusion` (population-weighted average of the similarities, double edges summed),
+    a replay checker for `average_link_graph`, its heights;
+  * `WeightedForest.partition` / `split` / `check_compatible_height` / `list_of_subtrees`, and the
+    `*_segment` wrappers' argument handling.
 
 Exact rational arithmetic.  Vectors are functions `Nat → Rat` read on `d < p`.
 -/
@@ -108,6 +117,111 @@ def kmeans (p : Nat) (X : List Vec) (k0 : Nat) (z0 : List Nat) (maxiter : Nat) (
   let r := runFrom p k X thr (maxiter - 1) C0
   (r.1, r.2, runJ p k X thr maxiter C0 none)
 
+/-! ### k-means: the public wrapper's argument handling, random restarts -/
+
+/-- the binary64 value of the literal `0.0001` that `kmeans` substitutes for a negative `delta` -/
+def deltaDefault : Rat := 7378697629483821 / 73786976294838206464
+
+/-- `kmeans(X, nbclusters, Labels, maxiter, delta)` for an acceptable labelling, with the wrapper's
+    argument handling as written: `nbclusters` is clamped to `1..n`; a positive `maxiter` is kept and
+    then a negative `delta` becomes `0.0001`; a non-positive `maxiter` becomes `300` and `delta` is
+    left alone. -/
+def kmeansW (p : Nat) (X : List Vec) (k0 : Int) (z0 : List Nat) (maxiter : Int) (delta : Rat) :
+    List Nat × List (List Rat) × Option Rat :=
+  let md : Nat × Rat :=
+    if maxiter > 0 then (maxiter.toNat, if delta < 0 then deltaDefault else delta) else (300, delta)
+  kmeans p X k0.toNat z0 md.1 md.2
+
+/-- `_kmeans(X, k, None, maxiter, delta, ninit)`: one run per initial centre set (the rows `X[seeds]`
+    drawn by each restart).  What comes back is the solution of the **last** restart (the `else` of
+    the outer `for`), and the least `J` seen in a non-stopping iteration of any restart. -/
+def kmeansR (p k : Nat) (X : List Vec) (inits : List (List (List Rat))) (maxiter : Nat) (delta : Rat) :
+    Option (List Nat × List (List Rat) × Option Rat) :=
+  match inits.getLast? with
+  | none => none
+  | some C0 =>
+      let thr := delta * vdata p X
+      let r := runFrom p k X thr (maxiter - 1) C0
+      some (r.1, r.2, inits.foldl (fun bJ C => runJ p k X thr maxiter C bJ) none)
+
+/-! ### The combinatorial skeleton of a graph-constrained agglomeration -/
+
+def relabel (i j k v : Nat) : Nat := if v = i ∨ v = j then k else v
+
+/-- keep one edge per neighbour of `k` (the removal of double edges in `_remap` / `fusion`) -/
+def dedupK (k : Nat) : List (Nat × Nat) → List Nat → List (Nat × Nat)
+  | [], _ => []
+  | e :: r, seen =>
+      if e.1 = k then
+        (if seen.contains e.2 then dedupK k r seen else e :: dedupK k r (e.2 :: seen))
+      else if e.2 = k then
+        (if seen.contains e.1 then dedupK k r seen else e :: dedupK k r (e.1 :: seen))
+      else e :: dedupK k r seen
+
+/-- edges after merging `i` and `j` into `k`: rename, drop the loops, keep one edge per pair -/
+def stepEdges (edges : List (Nat × Nat)) (i j k : Nat) : List (Nat × Nat) :=
+  dedupK k ((edges.map (fun e => (relabel i j k e.1, relabel i j k e.2))).filter
+    (fun e => e.1 != e.2)) []
+
+/-- nodes created so far (`size`), live edges between current roots, merges in order of creation:
+    the `t`-th merge `(i, j)` creates node `n + t` -/
+structure Skel where
+  size : Nat
+  edges : List (Nat × Nat)
+  ms : List (Nat × Nat)
+
+def skelInit (n : Nat) (E : List (Nat × Nat)) : Skel := ⟨n, E, []⟩
+
+/-- merge the roots `i` and `j` into the new node `size` -/
+def Skel.step (s : Skel) (i j : Nat) : Skel :=
+  ⟨s.size + 1, stepEdges s.edges i j s.size, s.ms ++ [(i, j)]⟩
+
+/-- are `i` and `j` joined by a live edge -/
+def Skel.adm (s : Skel) (i j : Nat) : Bool :=
+  s.edges.any (fun e => (e.1 == i && e.2 == j) || (e.1 == j && e.2 == i))
+
+/-- run a merge sequence -/
+def Skel.run (s : Skel) : List (Nat × Nat) → Skel
+  | [] => s
+  | (i, j) :: r => (s.step i j).run r
+
+/-- current root of `v` after the merges `ms`, the first of which creates node `k` -/
+def repFrom : Nat → List (Nat × Nat) → Nat → Nat
+  | _, [], v => v
+  | k, (i, j) :: r, v => repFrom (k + 1) r (relabel i j k v)
+
+/-- parent of node `v` in the dendrogram encoded by the merges (`v` itself for a root) -/
+def parentOf (n : Nat) (ms : List (Nat × Nat)) (v : Nat) : Nat :=
+  let t := ms.findIdx (fun m => m.1 == v || m.2 == v)
+  if t < ms.length then n + t else v
+
+/-- the `parents` array of the `WeightedForest` -/
+def parentsOf (n : Nat) (ms : List (Nat × Nat)) : List Nat :=
+  (List.range (n + ms.length)).map (parentOf n ms)
+
+/-- is `a` below `v` (or `v` itself): follow the parents from `a` at most `fuel` times -/
+def below (par : Nat → Nat) : Nat → Nat → Nat → Bool
+  | 0, a, v => a == v
+  | f + 1, a, v => a == v || (par a != a && below par f (par a) v)
+
+/-- `WeightedForest.list_of_subtrees` as written: `lst[i] = [i]` for the `nl` leaves, then for
+    `i = 0 .. V-2` in order `lst[parents[i]] = lst[i] ++ lst[parents[i]]`; the entries `nl..V-1` are
+    returned.  (A root `i < V-1` is its own parent: its list is doubled, as in the code.) -/
+def listOfSubtrees (parents : List Nat) : List (List Nat) :=
+  let V := parents.length
+  let par := parents.toArray
+  let isLeaf := fun (v : Nat) => !((List.range V).any (fun c => c != v && par.getD c c == v))
+  let nl := ((List.range V).filter isLeaf).length
+  let init : Array (List Nat) := ((List.range V).map (fun v => if v < nl then [v] else [])).toArray
+  let lst := (List.range (V - 1)).foldl (fun (a : Array (List Nat)) i =>
+      let j := par.getD i i
+      a.setIfInBounds j (a.getD i [] ++ a.getD j [])) init
+  (lst.toList.drop nl)
+
+/-- `WeightedForest.check_compatible_height`: `height[parents[i]] >= height[i]` for every node -/
+def checkCompatibleHeight (parents : List Nat) (heights : List Rat) : Bool :=
+  (List.range parents.length).all (fun i => decide (heights.getD i 0 ≤ heights.getD (parents.getD i i) 0))
+
 /-! ### Ward under graph constraints -/
 
 structure Feat where
@@ -127,90 +241,148 @@ def Feat.inertia (p : Nat) (f : Feat) : Rat := inertiaF p f.n (vecOf f.s) (vecOf
 def leafFeat (x : List Rat) : Feat := ⟨1, x, x.map (fun v => v ^ 2)⟩
 
 structure WState where
+  sk : Skel
+  /-- `(n, Σx, Σx²)` of every node created so far -/
   feats : Array Feat
-  /-- live edges between current roots, in the order of the implementation's edge array -/
-  edges : List (Nat × Nat)
-  /-- merges so far `(i, j, cost)`, the `t`-th creates node `n + t` -/
-  merges : Array (Nat × Nat × Rat)
-  /-- was every argmin so far attained by one edge only -/
-  uniq : Bool
+  /-- `height` of every node created so far (`0` for the items) -/
+  hs : Array Rat
+  /-- least difference between the cheapest live edge and the next one over the steps so far
+      (`none`: there never were two live edges) -/
+  gap : Option Rat
 
 def featAt (s : WState) (v : Nat) : Feat := s.feats.getD v ⟨0, [], []⟩
+def heightAt (s : WState) (v : Nat) : Rat := s.hs.getD v 0
 
 /-- weight of a live edge: inertia of the union of the two clusters -/
 def edgeCost (p : Nat) (s : WState) (e : Nat × Nat) : Rat :=
   ((featAt s e.1).add (featAt s e.2)).inertia p
 
-def relabel (i j k v : Nat) : Nat := if v = i ∨ v = j then k else v
+def minOpt (a : Option Rat) (b : Option Rat) : Option Rat :=
+  match a, b with
+  | none, b => b
+  | a, none => a
+  | some x, some y => some (if y < x then y else x)
 
-/-- keep one edge per neighbour of `k` (the `_remap` removal of double edges) -/
-def dedupK (k : Nat) : List (Nat × Nat) → List Nat → List (Nat × Nat)
-  | [], _ => []
-  | e :: r, seen =>
-      if e.1 = k then
-        (if seen.contains e.2 then dedupK k r seen else e :: dedupK k r (e.2 :: seen))
-      else if e.2 = k then
-        (if seen.contains e.1 then dedupK k r seen else e :: dedupK k r (e.1 :: seen))
-      else e :: dedupK k r seen
-
-/-- edges after merging `i` and `j` into `k` -/
-def stepEdges (edges : List (Nat × Nat)) (i j k : Nat) : List (Nat × Nat) :=
-  dedupK k ((edges.map (fun e => (relabel i j k e.1, relabel i j k e.2))).filter
-    (fun e => e.1 != e.2)) []
-
-/-- merge the clusters `i` and `j` at cost `c` -/
-def mergeInto (s : WState) (i j : Nat) (c : Rat) (u : Bool) : WState :=
-  let k := s.feats.size
-  { feats := s.feats.push ((featAt s i).add (featAt s j))
-    edges := stepEdges s.edges i j k
-    merges := s.merges.push (i, j, c)
-    uniq := s.uniq && u }
+/-- merge the clusters `i` and `j` whose union costs `c`.  The height stored for the new node is
+    `max(cost, height[i], height[j])` as in the code (`q - s**2/n` rounds in floating point). -/
+def mergeInto (s : WState) (i j : Nat) (c : Rat) (g : Option Rat) : WState :=
+  { sk := s.sk.step i j
+    feats := s.feats.push ((featAt s i).add (featAt s j))
+    hs := s.hs.push (max c (max (heightAt s i) (heightAt s j)))
+    gap := minOpt s.gap g }
 
 /-- position of the lightest live edge (`K.weights.argmin()`: the first one) -/
 def pickEdge (p : Nat) (s : WState) : Nat :=
-  let costs := (s.edges.map (edgeCost p s)).toArray
+  let costs := (s.sk.edges.map (edgeCost p s)).toArray
   argminFirst (fun e => costs.getD e 0) costs.size
+
+/-- distance from `costs[m]` to the least of the other entries -/
+def gapAt (costs : List Rat) (m : Nat) : Option Rat :=
+  let c := costs.getD m 0
+  (((List.range costs.length).filter (· != m)).map (fun e => costs.getD e 0 - c)).foldl
+    (fun a d => minOpt a (some d)) none
 
 /-- one iteration of the `for q in range(n - nbcc)` loop of `ward` -/
 def wardStep (p : Nat) (s : WState) : WState :=
-  let costs := s.edges.map (edgeCost p s)
+  let costs := s.sk.edges.map (edgeCost p s)
   let m := pickEdge p s
-  let e := s.edges.getD m (0, 0)
-  let c := costs.getD m 0
-  mergeInto s e.1 e.2 c ((costs.filter (· == c)).length == 1)
+  let e := s.sk.edges.getD m (0, 0)
+  mergeInto s e.1 e.2 (costs.getD m 0) (gapAt costs m)
 
 def wardLoop (p : Nat) : Nat → WState → WState
   | 0, s => s
-  | f + 1, s => if s.edges.isEmpty then s else wardLoop p f (wardStep p s)
+  | f + 1, s => if s.sk.edges.isEmpty then s else wardLoop p f (wardStep p s)
 
 def wardInit (X : List (List Rat)) (edges : List (Nat × Nat)) : WState :=
-  ⟨(X.map leafFeat).toArray, edges, #[], true⟩
+  ⟨skelInit X.length edges, (X.map leafFeat).toArray, (X.map (fun _ => (0 : Rat))).toArray, none⟩
 
 def ward (p : Nat) (X : List (List Rat)) (edges : List (Nat × Nat)) : WState :=
   wardLoop p X.length (wardInit X edges)
 
-/-- parent array of the dendrogram encoded by the merges -/
-def parentsOf (n : Nat) (merges : List (Nat × Nat × Rat)) : List Nat :=
-  let V := n + merges.length
-  let base := (List.range V).toArray
-  let a := (List.zip (List.range merges.length) merges).foldl
-    (fun (a : Array Nat) tm => (a.setIfInBounds tm.2.1 (n + tm.1)).setIfInBounds tm.2.2.1 (n + tm.1)) base
-  a.toList
-
-def heightsOf (n : Nat) (merges : List (Nat × Nat × Rat)) : List Rat :=
-  List.replicate n 0 ++ merges.map (fun m => m.2.2)
-
-/-- Replay of a given merge sequence: for every proposed merge report whether the two
-    clusters are live roots joined by an edge, the cost of the merge and the least cost of
-    an admissible merge at that moment. -/
+/-- Replay of a given merge sequence (used for `ward_quick`, whose batches and unstable `argsort`
+    are not reproduced, and for `ward` when costs tie): for every proposed merge report whether the
+    two clusters are joined by a live edge, the cost of the merge and the least cost of an
+    admissible merge at that moment. -/
 def replay (p : Nat) : List (Nat × Nat) → WState → List (Bool × Rat × Rat) → WState × List (Bool × Rat × Rat)
   | [], s, acc => (s, acc.reverse)
   | (i, j) :: r, s, acc =>
-      let adm := s.edges.any (fun e => (e.1 == i && e.2 == j) || (e.1 == j && e.2 == i))
       let c := edgeCost p s (i, j)
-      let costs := s.edges.map (edgeCost p s)
+      let costs := s.sk.edges.map (edgeCost p s)
       let mn := costs.foldl (fun (a : Rat) b => if b < a then b else a) (costs.headD c)
-      replay p r (mergeInto s i j c true) ((adm, c, mn) :: acc)
+      replay p r (mergeInto s i j c none) ((s.sk.adm i j, c, mn) :: acc)
+
+/-- live edges `(min, max, cost)` in lexicographic order -/
+def liveEdges (p : Nat) (s : WState) : List (Nat × Nat × Rat) :=
+  ((s.sk.edges.map (fun e => (min e.1 e.2, max e.1 e.2, edgeCost p s e))).mergeSort
+    (fun a b => decide (a.1 < b.1 ∨ (a.1 = b.1 ∧ a.2.1 ≤ b.2.1))))
+
+/-- the live edge set after each merge of a replayed sequence (what `_remap` leaves in `K`) -/
+def replayEdges (p : Nat) : List (Nat × Nat) → WState → List (List (Nat × Nat × Rat))
+  | [], _ => []
+  | (i, j) :: r, s =>
+      let s' := mergeInto s i j (edgeCost p s (i, j)) none
+      liveEdges p s' :: replayEdges p r s'
+
+/-- `_auxiliary_graph`: the undirected, loop-free, duplicate-free edge set `(a, b)`, `a < b`, in
+    row-major order, from any directed edge list -/
+def auxEdges (E : List (Nat × Nat)) : List (Nat × Nat) :=
+  let und := (E.filter (fun e => e.1 != e.2)).map (fun e => (min e.1 e.2, max e.1 e.2))
+  (und.mergeSort (fun a b => decide (a.1 < b.1 ∨ (a.1 = b.1 ∧ a.2 ≤ b.2)))).eraseDups
+
+/-! ### Average link on a similarity graph (`average_link_graph`, `fusion`) -/
+
+structure AState where
+  size : Nat
+  /-- live edges with their weight (mean similarity between the two clusters) -/
+  ws : List ((Nat × Nat) × Rat)
+  ms : List (Nat × Nat)
+  pop : Array Nat
+
+def AState.skel (s : AState) : Skel := ⟨s.size, s.ws.map (·.1), s.ms⟩
+
+def samePair (a b : Nat × Nat) : Bool := (a.1 == b.1 && a.2 == b.2) || (a.1 == b.2 && a.2 == b.1)
+
+/-- `fusion(K, pop, i, j, k)`: weights of the edges at `i` are multiplied by `fi = pop[i]/pop[k]`,
+    those at `j` by `fj = 1 - fi`, both ends renamed `k`, double edges summed -/
+def fuseW (ws : List ((Nat × Nat) × Rat)) (i j k : Nat) (fi fj : Rat) : List ((Nat × Nat) × Rat) :=
+  let sc := fun (v : Nat) (w : Rat) => if v = i then w * fi else if v = j then w * fj else w
+  let R := (ws.map (fun ew => ((relabel i j k ew.1.1, relabel i j k ew.1.2), sc ew.1.2 (sc ew.1.1 ew.2)))).filter
+    (fun ew => ew.1.1 != ew.1.2)
+  (dedupK k (R.map (·.1)) []).map (fun e => (e, ((R.filter (fun ew => samePair ew.1 e)).map (·.2)).sum))
+
+def popAt (s : AState) (v : Nat) : Nat := s.pop.getD v 0
+
+def weightOf (s : AState) (i j : Nat) : Rat :=
+  match s.ws.find? (fun ew => samePair ew.1 (i, j)) with
+  | some ew => ew.2
+  | none => 0
+
+/-- one iteration of `average_link_graph` for the pair `(i, j)` -/
+def AState.merge (s : AState) (i j : Nat) : AState :=
+  let pk := popAt s i + popAt s j
+  let fi : Rat := (popAt s i : Rat) / (pk : Rat)
+  { size := s.size + 1
+    ws := fuseW (s.ws.filter (fun ew => !samePair ew.1 (i, j))) i j s.size fi (1 - fi)
+    ms := s.ms ++ [(i, j)]
+    pop := s.pop.push pk }
+
+def avgInit (n : Nat) (ws : List ((Nat × Nat) × Rat)) : AState :=
+  ⟨n, ws, [], Array.replicate n 1⟩
+
+/-- replay of an average-link merge sequence: admissible?, similarity of the merged pair, largest
+    live similarity at that moment -/
+def avgReplay : List (Nat × Nat) → AState → List (Bool × Rat × Rat) → AState × List (Bool × Rat × Rat)
+  | [], s, acc => (s, acc.reverse)
+  | (i, j) :: r, s, acc =>
+      let c := weightOf s i j
+      let mx := (s.ws.map (·.2)).foldl (fun (a : Rat) b => if a < b then b else a) c
+      avgReplay r (s.merge i j) ((s.skel.adm i j, c, mx) :: acc)
+
+/-- heights of `average_link_graph`: similarities below `0` become `0`, the items sit one below
+    the first merge, everything is negated -/
+def avgHeights (n : Nat) (sims : List Rat) : List Rat :=
+  let c := sims.map (fun s => if s < 0 then 0 else s)
+  List.replicate n (-(c.headD 0 + (if sims.isEmpty then 0 else 1))) ++ c.map (fun s => -s)
 
 /-! ### WeightedForest.partition / split -/
 
@@ -221,49 +393,89 @@ def rootIn (parents : Array Nat) (valid : Array Bool) : Nat → Nat → Nat
       let pv := parents.getD v v
       if pv = v ∨ !(valid.getD pv false) then v else rootIn parents valid f pv
 
-/-- `subforest(valid)`, `cc()`, labels of the leaves of the sub-forest (components numbered by
-    their least vertex); `none` when no vertex is left (`ValueError`). -/
+/-- `subforest(valid)`, `cc()`, labels of the leaves of the sub-forest: every valid node without a
+    valid child is labelled by the root of its tree in the sub-forest (the implementation numbers
+    the trees; labellings are compared up to renaming); `none` when no vertex is left
+    (`ValueError`). -/
 def cutLabels (parents : Array Nat) (valid : Array Bool) : Option (List Nat) :=
   let V := parents.size
   let vs := (List.range V).filter (fun v => valid.getD v false)
   if vs.isEmpty then none else
-  let hasChild := vs.foldl (fun (a : Array Bool) c =>
-      let pc := parents.getD c c
-      if pc != c && valid.getD pc false then a.setIfInBounds pc true else a) (Array.replicate V false)
-  let step := fun (st : List (Nat × Nat) × List Nat) (v : Nat) =>
-      let r := rootIn parents valid V v
-      let (seen, out) := st
-      let lab := match seen.find? (fun t => t.1 == r) with
-        | some t => t.2
-        | none => seen.length
-      let seen' := if seen.any (fun t => t.1 == r) then seen else seen ++ [(r, seen.length)]
-      (seen', if hasChild.getD v false then out else lab :: out)
-  some ((vs.foldl step ([], [])).2.reverse)
+  let hasChild := fun (v : Nat) => vs.any (fun c => c != v && parents.getD c c == v)
+  some ((vs.filter (fun v => !hasChild v)).map (rootIn parents valid V))
 
 /-- `partition(threshold)`: keep the nodes with `height < threshold` -/
 def partition (parents : List Nat) (heights : List Rat) (th : Rat) : Option (List Nat) :=
-  cutLabels parents.toArray (heights.map (fun h => decide (h < th))).toArray
+  cutLabels parents.toArray ((List.range parents.length).map (fun v => decide (heights.getD v 0 < th))).toArray
 
-/-- number of nodes cut by `split(k)`: `k - nbcc`, nothing when `k ≤ nbcc` -/
+/-- number of trees -/
+def nbTrees (parents : List Nat) : Nat :=
+  ((List.range parents.length).filter (fun v => parents.getD v v == v)).length
+
+/-- number of leaves (`isleaf().sum()`): nodes that are nobody's parent -/
+def nbLeaves (parents : List Nat) : Nat :=
+  ((List.range parents.length).filter (fun v =>
+    !((List.range parents.length).any (fun c => c != v && parents.getD c c == v)))).length
+
+/-- number of nodes cut by `split(k)`: `min(k, V, #leaves) - nbcc`, nothing when `k ≤ nbcc` -/
 def cutCount (parents : List Nat) (k : Nat) : Nat :=
-  let V := parents.length
-  let nbcc := ((List.range V).filter (fun v => parents.getD v v == v)).length
-  min k V - nbcc
+  min (min k parents.length) (nbLeaves parents) - nbTrees parents
+
+/-- nodes in the order of `np.argsort(height, kind='stable')` -/
+def heightOrder (V : Nat) (heights : List Rat) : List Nat :=
+  (List.range V).mergeSort (fun a b => decide (heights.getD a 0 ≤ heights.getD b 0))
+
+/-- the nodes `split(k)` removes: the last `k - nbcc` in the stable height order -/
+def splitRemoved (parents : List Nat) (heights : List Rat) (k : Nat) : List Nat :=
+  (heightOrder parents.length heights).drop (parents.length - cutCount parents k)
 
 /-- `split(k)`: cut the `k - nbcc` highest nodes; among equal heights the later-created
-    nodes (parents) go first, so that exactly `k - nbcc` nodes are cut. -/
+    nodes (parents) go first. -/
 def split (parents : List Nat) (heights : List Rat) (k : Nat) : Option (List Nat) :=
   let V := parents.length
-  let cut := cutCount parents k
-  let h := heights.toArray
-  let order := (List.range V).mergeSort (fun a b => decide (h.getD a 0 ≤ h.getD b 0))
-  let removed := order.drop (V - cut)
-  let valid := removed.foldl (fun (a : Array Bool) v => a.setIfInBounds v false) (Array.replicate V true)
-  cutLabels parents.toArray valid
+  let removed := splitRemoved parents heights k
+  cutLabels parents.toArray ((List.range V).map (fun v => !removed.contains v)).toArray
+
+/-! ### the `*_segment` wrappers -/
+
+/-- `u.max() + 1` of a labelling numbered `0..m-1`: its number of distinct labels -/
+def nbOf (l : List Nat) : Nat := l.eraseDups.length
+
+/-- argument handling of `ward_segment` (`kind = 0`), `ward_quick_segment` / `ward_field_segment`
+    (`1`) and `average_link_graph_segment` (`2`): the threshold handed to `partition` (`none`: not
+    called, `some none`: `inf`) and the count handed to `split` (`0`: not called) -/
+def segArgs (kind n : Nat) (stop : Rat) (qmax : Int) : Option (Option Rat) × Nat :=
+  let q0 : Int := if qmax = -1 then (if kind = 0 then (n : Int) - 1 else if kind = 2 then (n : Int) else qmax)
+    else qmax
+  let q : Nat := (min q0 (n : Int)).toNat
+  let thr : Option (Option Rat) :=
+    if kind = 2 then (if 0 ≤ stop then some (some (-stop)) else none)
+    else if stop = -1 then some none
+    else if 0 ≤ stop then some (some stop) else none
+  (thr, q)
+
+/-- `*_segment(stop, qmax)` on the tree the algorithm returned: `u1 = partition(threshold)` when it
+    is called, `u2 = split(qmax)` when `qmax > 0`, a constant labelling otherwise; the one with
+    more clusters is returned (`u1` on equality).  `none` = `ValueError` of either cut. -/
+def segment (kind n : Nat) (parents : List Nat) (heights : List Rat) (stop : Rat) (qmax : Int) :
+    Option (List Nat) :=
+  let a := segArgs kind n stop qmax
+  let zeros := List.replicate n 0
+  let u1 : Option (List Nat) := match a.1 with
+    | none => some zeros
+    | some none => cutLabels parents.toArray (Array.replicate parents.length true)
+    | some (some th) => partition parents heights th
+  let u2 : Option (List Nat) := if a.2 > 0 then split parents heights a.2 else some zeros
+  match u1, u2 with
+  | some l1, some l2 => some (if nbOf l1 < nbOf l2 then l2 else l1)
+  | _, _ => none
 
 /-! ### Line protocol -/
 
 def pPairs (m : Nat) : P (List (Nat × Nat)) := pMany (do let a ← pNat; let b ← pNat; pure (a, b)) m
+
+def pWPairs (m : Nat) : P (List ((Nat × Nat) × Rat)) :=
+  pMany (do let a ← pNat; let b ← pNat; let w ← pRat; pure ((a, b), w)) m
 
 def fmtOptLabels : Option (List Nat) → String
   | some l => fmtNats l
@@ -272,6 +484,16 @@ def fmtOptLabels : Option (List Nat) → String
 def fmtOptRat : Option Rat → String
   | some r => fmtRat r
   | none => "inf"
+
+def fmtTriples (rep : List (Bool × Rat × Rat)) : String :=
+  " ".intercalate (rep.map (fun t => (if t.1 then "1 " else "0 ") ++ fmtRat t.2.1 ++ " " ++ fmtRat t.2.2))
+
+def fmtEdgesW (l : List (Nat × Nat × Rat)) : String :=
+  " ".intercalate (l.map (fun e => toString e.1 ++ " " ++ toString e.2.1 ++ " " ++ fmtRat e.2.2))
+
+def sortW (l : List ((Nat × Nat) × Rat)) : List (Nat × Nat × Rat) :=
+  (l.map (fun ew => (min ew.1.1 ew.1.2, max ew.1.1 ew.1.2, ew.2))).mergeSort
+    (fun a b => decide (a.1 < b.1 ∨ (a.1 = b.1 ∧ a.2.1 ≤ b.2.1)))
 
 def run : Toks → String
   | "estep" :: rest =>
@@ -289,13 +511,23 @@ def run : Toks → String
       | some (p, k, X, z) => fmtMat (mstepL p (X.map vecOf) z k)
       | none => "bad-op"
   | "kmeans" :: rest =>
-      match runP (do let p ← pNat; let n ← pNat; let k ← pNat; let mi ← pNat; let dl ← pRat
+      match runP (do let p ← pNat; let n ← pNat; let k ← pInt; let mi ← pInt; let dl ← pRat
                      let X ← pMany (pMany pRat p) n; let z ← pMany pNat n
                      pure (p, k, mi, dl, X, z)) rest with
       | some (p, k, mi, dl, X, z) =>
-          if mi = 0 ∨ X.isEmpty then "bad-op" else
-          let r := kmeans p (X.map vecOf) k z mi dl
+          if X.isEmpty then "bad-op" else
+          let r := kmeansW p (X.map vecOf) k z mi dl
           fmtNats r.1 ++ " | " ++ fmtMat r.2.1 ++ " | " ++ fmtOptRat r.2.2
+      | none => "bad-op"
+  | "kmeansr" :: rest =>
+      match runP (do let p ← pNat; let n ← pNat; let k ← pNat; let ni ← pNat; let mi ← pNat; let dl ← pRat
+                     let X ← pMany (pMany pRat p) n; let I ← pMany (pMany (pMany pRat p) k) ni
+                     pure (p, k, mi, dl, X, I)) rest with
+      | some (p, k, mi, dl, X, I) =>
+          if mi = 0 ∨ X.isEmpty ∨ k = 0 then "bad-op" else
+          match kmeansR p k (X.map vecOf) I mi dl with
+          | some r => fmtNats r.1 ++ " | " ++ fmtMat r.2.1 ++ " | " ++ fmtOptRat r.2.2
+          | none => "bad-op"
       | none => "bad-op"
   | "voronoi" :: rest =>
       match runP (do let px ← pNat; let n ← pNat; let pc ← pNat; let k ← pNat
@@ -310,9 +542,7 @@ def run : Toks → String
                      let X ← pMany (pMany pRat p) n; let E ← pPairs m; pure (p, X, E)) rest with
       | some (p, X, E) =>
           let s := ward p X E
-          let ms := s.merges.toList
-          fmtNats (parentsOf X.length ms) ++ " | " ++ fmtRats (heightsOf X.length ms) ++ " | " ++
-            (if s.uniq then "1" else "0")
+          fmtNats (parentsOf X.length s.sk.ms) ++ " | " ++ fmtRats s.hs.toList ++ " | " ++ fmtOptRat s.gap
       | none => "bad-op"
   | "wardchk" :: rest =>
       match runP (do let p ← pNat; let n ← pNat; let m ← pNat; let q ← pNat
@@ -320,9 +550,44 @@ def run : Toks → String
                      pure (p, X, E, S)) rest with
       | some (p, X, E, S) =>
           let (s, rep) := replay p S (wardInit X E) []
-          fmtNats (parentsOf X.length s.merges.toList) ++ " | " ++
-            " ".intercalate (rep.map (fun t => (if t.1 then "1 " else "0 ") ++ fmtRat t.2.1 ++ " " ++ fmtRat t.2.2))
-            ++ " | " ++ toString s.edges.length
+          fmtNats (parentsOf X.length s.sk.ms) ++ " | " ++ fmtTriples rep
+            ++ " | " ++ toString s.sk.edges.length ++ " | " ++ fmtRats s.hs.toList
+      | none => "bad-op"
+  | "wardedges" :: rest =>
+      match runP (do let p ← pNat; let n ← pNat; let m ← pNat; let q ← pNat
+                     let X ← pMany (pMany pRat p) n; let E ← pPairs m; let S ← pPairs q
+                     pure (p, X, E, S)) rest with
+      | some (p, X, E, S) =>
+          " ; ".intercalate ((replayEdges p S (wardInit X E)).map fmtEdgesW)
+      | none => "bad-op"
+  | "auxgraph" :: rest =>
+      match runP (do let p ← pNat; let n ← pNat; let m ← pNat
+                     let X ← pMany (pMany pRat p) n; let E ← pPairs m; pure (p, X, E)) rest with
+      | some (p, X, E) =>
+          if E.any (fun e => e.1 ≥ X.length || e.2 ≥ X.length) then "bad-op" else
+          fmtEdgesW (liveEdges p (wardInit X (auxEdges E)))
+      | none => "bad-op"
+  | "inertia" :: rest =>
+      match runP (do let p ← pNat; let ni ← pNat; let si ← pMany pRat p; let qi ← pMany pRat p
+                     let nj ← pNat; let sj ← pMany pRat p; let qj ← pMany pRat p
+                     pure (p, (⟨ni, si, qi⟩ : Feat), (⟨nj, sj, qj⟩ : Feat))) rest with
+      | some (p, a, b) => if a.n + b.n = 0 then "bad-op" else fmtRat ((a.add b).inertia p)
+      | none => "bad-op"
+  | "avgchk" :: rest =>
+      match runP (do let n ← pNat; let m ← pNat; let q ← pNat
+                     let W ← pWPairs m; let S ← pPairs q; pure (n, W, S)) rest with
+      | some (n, W, S) =>
+          let (s, rep) := avgReplay S (avgInit n W) []
+          fmtNats (parentsOf n s.ms) ++ " | " ++ fmtTriples rep ++ " | " ++ toString s.ws.length
+            ++ " | " ++ fmtRats (avgHeights n (rep.map (·.2.1)))
+      | none => "bad-op"
+  | "fusion" :: rest =>
+      match runP (do let m ← pNat; let W ← pWPairs m; let i ← pNat; let j ← pNat; let k ← pNat
+                     let pi ← pNat; let pj ← pNat; pure (W, i, j, k, pi, pj)) rest with
+      | some (W, i, j, k, pi, pj) =>
+          if pi + pj = 0 ∨ i = j ∨ k = i ∨ k = j then "bad-op" else
+          let fi : Rat := (pi : Rat) / ((pi + pj : Nat) : Rat)
+          fmtEdgesW (sortW (fuseW W i j k fi (1 - fi)))
       | none => "bad-op"
   | "partition" :: rest =>
       match runP (do let V ← pNat; let th ← pRat; let ps ← pMany pNat V; let hs ← pMany pRat V
@@ -333,6 +598,20 @@ def run : Toks → String
       match runP (do let V ← pNat; let k ← pNat; let ps ← pMany pNat V; let hs ← pMany pRat V
                      pure (k, ps, hs)) rest with
       | some (k, ps, hs) => fmtOptLabels (split ps hs k)
+      | none => "bad-op"
+  | "segment" :: rest =>
+      match runP (do let kind ← pNat; let V ← pNat; let n ← pNat; let stop ← pRat; let q ← pInt
+                     let ps ← pMany pNat V; let hs ← pMany pRat V; pure (kind, n, stop, q, ps, hs)) rest with
+      | some (kind, n, stop, q, ps, hs) =>
+          if kind > 2 then "bad-op" else fmtOptLabels (segment kind n ps hs stop q)
+      | none => "bad-op"
+  | "subtrees" :: rest =>
+      match runP (do let V ← pNat; let ps ← pMany pNat V; pure ps) rest with
+      | some ps => " ; ".intercalate ((listOfSubtrees ps).map fmtNats)
+      | none => "bad-op"
+  | "chkheight" :: rest =>
+      match runP (do let V ← pNat; let ps ← pMany pNat V; let hs ← pMany pRat V; pure (ps, hs)) rest with
+      | some (ps, hs) => if checkCompatibleHeight ps hs then "1" else "0"
       | none => "bad-op"
   | _ => "bad-op"
 
